@@ -26,7 +26,7 @@ func (d *Domain) Describe() []string {
 		"values returned by the fetcher and by custom operators are scalars of a supported type (nil, bool, int64, string), never the DNE sentinel itself, never a list",
 		"boolean-typed variables (b0..b2, ub) hold a bool or their Get fails; the custom operator fb returns a bool or fails (and/or operands are boolean-typed or failing, C01's quantifier)",
 		"fetcher and custom operators are functions of their arguments during one evaluation (uninterpreted gv_/ge_/av_ constants, cv_/ce_ functions)",
-		"built-in operators are replaced by the direct terms of opterms.go (bridge lemmas to the proved contracts are the proof tier's)",
+		"built-in operators are replaced by the direct terms of opterms.go (bridge lemmas to the proved contracts are the proof tier's); the error of a failing built-in is identified by WHICH operator failed (what a replay can observe of it), errors of the fetcher and of custom operators by identity",
 	}
 	if d.AllBound {
 		out = append(out, "every referenced variable is bound: Get never fails (quantifier of C02/C03)")
@@ -51,6 +51,10 @@ func isOracleVal(t *T) (name string, kind string) {
 		return t.Op[3:], "cv"
 	}
 	return "", ""
+}
+
+func isOracleErr(t *T) bool {
+	return t.Sort == SErr && (strings.HasPrefix(t.Op, "ge_") || strings.HasPrefix(t.Op, "gwe_") || strings.HasPrefix(t.Op, "ce_"))
 }
 
 func errSymFor(t *T) *T {
@@ -108,6 +112,9 @@ func (d *Domain) Implied(atom *T, r *Path) (bool, bool) {
 		if ctor == "ENil" && len(x.Args) == 0 && d.AllBound && (strings.HasPrefix(x.Op, "ge_") || strings.HasPrefix(x.Op, "gwe_")) {
 			return true, true
 		}
+		if ctor == "EBuiltin" && isOracleErr(x) {
+			return false, true // an error of the fetcher / a custom operator is not a built-in's error
+		}
 	}
 	if d.AllAvail && len(atom.Args) == 0 && strings.HasPrefix(atom.Op, "av_") {
 		return true, true
@@ -125,7 +132,7 @@ func (d *Domain) Assumptions(ts ...*T) []*T {
 			out = append(out, t)
 		}
 	}
-	for _, x := range Apps([]string{"gv_", "gw_", "cv_", "ge_", "gwe_", "av_"}, ts...) {
+	for _, x := range Apps([]string{"gv_", "gw_", "cv_", "ge_", "gwe_", "ce_", "av_"}, ts...) {
 		if _, kind := isOracleVal(x); kind != "" {
 			add(Not(Is("VDNE", x)))
 			add(Not(Is("VIntList", x)))
@@ -135,6 +142,7 @@ func (d *Domain) Assumptions(ts ...*T) []*T {
 			if d.NoNil {
 				add(Not(Is("VNil", x)))
 			}
+			add(Not(Is("EBuiltin", errSymFor(x))))
 			if boolTyped(x) {
 				add(Or(Not(Is("ENil", errSymFor(x))), Is("VBool", x)))
 			}
@@ -142,6 +150,9 @@ func (d *Domain) Assumptions(ts ...*T) []*T {
 				add(Is("ENil", errSymFor(x)))
 			}
 			continue
+		}
+		if isOracleErr(x) {
+			add(Not(Is("EBuiltin", x)))
 		}
 		if len(x.Args) == 0 && d.AllBound && (strings.HasPrefix(x.Op, "ge_") || strings.HasPrefix(x.Op, "gwe_")) {
 			add(Is("ENil", x))
